@@ -101,6 +101,27 @@ theorem dbClosed_flush {e : Env} {role : Hash → Role} {mem : List Entry} :
     have := ih hd' ht'
     simpa [List.reverse_cons, List.append_assoc] using this
 
+theorem closedFrom_mem {e : Env} {role : Hash → Role} {l : List Entry} {h : Hash} {v : Option Blob} :
+    ∀ {base : Hash → Bool}, ClosedFrom e role base l → (h, v) ∈ l →
+    GoodEntry e role h v ∧ ∀ x ∈ refs e role h v, base x = true ∨ hasKey l x = true := by
+  induction l with
+  | nil => intro _ _ hm; cases hm
+  | cons a t ih =>
+    intro base hc hm
+    obtain ⟨h', v'⟩ := a
+    obtain ⟨⟨hg, hr⟩, ht⟩ := hc
+    rcases List.mem_cons.mp hm with heq | hm'
+    · cases heq
+      exact ⟨hg, fun x hx => Or.inl (hr x hx)⟩
+    · obtain ⟨g, r⟩ := ih ht hm'
+      refine ⟨g, fun x hx => ?_⟩
+      rcases r x hx with h1 | h1
+      · simp only [Bool.or_eq_true, beq_iff_eq] at h1
+        rcases h1 with h1 | h1
+        · exact Or.inl h1
+        · right; rw [hasKey_cons]; simp [h1]
+      · right; rw [hasKey_cons]; simp [h1]
+
 /-- everything reachable from a present root through a closed database is present -/
 theorem reach_in_db {e : Env} {role : Hash → Role} {db : List Entry} {root x : Hash}
     (hd : DbClosed e role db) (hroot : hasKey db root = true) (hr : Reach e role db root x) : hasKey db x = true := by
